@@ -19,7 +19,9 @@ SIGMAS = [0.25, 0.5, 0.75, 1.0, 1.25, 1.5, 2.0, 2.5, 3.0, 0.375, 0.625, 0.875, 1
 RULE = ('corpus; systematic 1-D sweep (axis lengths 1-5 x kernel lengths 1..10N+1 x 6 modes, distinct sample values); '
         'random 1-3 D x 8 dtypes x 7 layouts x kernels of every shape (odd/even, with zeros, asymmetric, larger than the '
         'image up to 10x the axis length, strided kernels) x 6 modes x every axis incl. negative; raw fast-path entry point '
-        'against the write-sequence model; Gaussian: sigma grid x orders 0-3 x 6 modes, unit ramps. '
+        'against the write-sequence model; Gaussian: sigma grid x orders 0-3 x 6 modes, unit ramps; size-threshold stream: '
+        'rows of 2^16 +- 1 and more pixels with 255-300 taps (Gaussian: sigma 64, 513 taps), judged with an exact vectorised '
+        'numpy oracle of the defining sum whose agreement with the Lean specification is checked on the small convolve1d cases. '
         'Non-trivial = output differs from the input; distinct = distinct protocol line + layout.')
 ASSUMPTIONS = ['weights are cast to the dtype of f first (documented: "If not of the same dtype as f, it is cast"); '
                'the defining sum is taken with the cast weights',
@@ -137,6 +139,81 @@ def _range(dtype):
     return float(ii.min), float(ii.max)
 
 
+def _border_index(x, n, mode):
+    """`borderSpec` of Model/Border.lean on an integer array of coordinates: (index, valid)"""
+    if mode == 'nearest':
+        return np.clip(x, 0, n - 1), np.ones(x.shape, bool)
+    if mode == 'wrap':
+        return x % n, np.ones(x.shape, bool)
+    if mode == 'reflect':
+        m = x % (2 * n)
+        return np.where(m < n, m, 2 * n - 1 - m), np.ones(x.shape, bool)
+    if mode == 'mirror':
+        if n <= 1:
+            return np.zeros_like(x), np.ones(x.shape, bool)
+        m = x % (2 * n - 2)
+        return np.where(m < n, m, 2 * n - 2 - m), np.ones(x.shape, bool)
+    ok = (x >= 0) & (x < n)                          # constant (cval = 0) / ignore: the sample contributes nothing
+    return np.where(ok, x, 0), ok
+
+
+def _oracle_conv1d(A, w, axis, mode):
+    """exact vectorised oracle for the size-threshold stream (the Lean driver builds position lists: too slow for 10^5
+    pixels x 257 taps): sum_j w[j] * f[border(x + j - len(w)//2)] along `axis`, accumulated in double in footprint
+    order (all values are small integers: every double operation is exact). Its agreement with the Lean specification is
+    established on the small random convolve1d cases of every run."""
+    A = np.moveaxis(np.asarray(A, np.float64), axis, -1)
+    n = A.shape[-1]
+    acc = np.zeros(A.shape, np.float64)
+    x = np.arange(n)
+    c = len(w) // 2
+    for j, wj in enumerate(w):
+        if wj == 0:
+            continue
+        idx, ok = _border_index(x + j - c, n, mode)
+        acc += np.where(ok, A[..., idx], 0.0) * float(wj)
+    return np.moveaxis(acc, -1, axis)
+
+
+def _eval_big(case):
+    import mahotas as mh
+    rs = np.random.RandomState(case['seed'])
+    shape, axis, dt = case['shape'], case['axis'], np.dtype(case['dtype'])
+    A = rs.randint(0, 4, size=shape).astype(dt)
+    if dt.kind == 'f':
+        A = A - 1
+    w = rs.randint(0, 3, size=case['taps']).astype(np.float64)
+    w[0], w[-1] = 1.0, 2.0                        # the two extreme taps take part
+    if dt.kind == 'f' or dt.kind == 'i':
+        w[case['taps'] // 2] = -1.0
+    mode = case['mode']
+    want = _oracle_conv1d(A, w, axis, mode)
+    lo, hi = _range(dt)
+    ok = (want >= lo) & (want <= hi)                 # integer-valued accumulators: the cast is the identity where defined
+    f = []
+    fn = case['fn']
+    if fn == 'convolve1d':
+        got = mh.convolve1d(A, w, axis, mode=mode)
+    elif fn == 'convolve':
+        ws = [1] * len(shape); ws[axis] = len(w)
+        got = mh.convolve(A, w.reshape(ws), mode=mode)
+    else:                                            # gaussian_filter1d: weights from the Lean driver, summed by the oracle
+        sigma = case['sigma']
+        gw = core.floats(core.drive([f"c06 kind=gaussw sigma={core.fmt_floats([sigma])} order={case['order']} dt=f64 mode=0 shape=1 data=0"])[0]['w'])
+        want = _oracle_conv1d(A, gw, axis, mode)
+        got = mh.gaussian_filter1d(A.astype(np.float64), sigma, axis, case['order'], mode=mode)
+        bad = np.nonzero(~(np.abs(got - want) <= 1e-10 * 4).ravel())[0]
+        if got.shape != want.shape or bad.size:
+            f.append(dict(kind='property', key='gaussian1d:size-threshold', detail=dict(first_bad=bad[:5].tolist(), taps=len(gw))))
+        return f, len(gw)
+    g = np.asarray(got, np.float64)
+    bad = np.nonzero((ok & (g != want)).ravel())[0]
+    if got.shape != want.shape or got.dtype != dt or bad.size:
+        f.append(dict(kind='property', key=f'{fn}:size-threshold',
+                      detail=dict(first_bad=bad[:5].tolist(), got=g.ravel()[bad[:5]].tolist(), spec=want.ravel()[bad[:5]].tolist())))
+    return f, len(w)
+
+
 def _defined(drv, n):
     d = drv.get('defined')
     ok = np.ones(n, bool) if d is None else np.array([c == '1' for c in d.split(',')] if d else [], bool)
@@ -197,6 +274,15 @@ def _judge(case, got, drv):
                             detail=dict(pixels=bad[:8].tolist(), got=g.tolist(), model=m.tolist())))
         return out
     spec = core.floats(drv['spec'])
+    if k == 'convolve1d' and A.size and drv.get('wdef') != '0' and A.dtype.kind != 'b' and np.isfinite(spec).all():
+        # the numpy oracle of the size-threshold stream must agree with the Lean specification on the small cases
+        # (before the cast: compared where the cast is the identity, i.e. integer-valued accumulators in range)
+        with np.errstate(all='ignore'):
+            wc = np.array(case['w'], np.float64).astype(A.dtype).astype(np.float64)
+        o = _oracle_conv1d(A, wc, case['axis'] % A.ndim, case['mode']).ravel()
+        same = (o == np.trunc(o)) & _defined(drv, spec.size) & (np.abs(o) < 2 ** 24)
+        if A.dtype.kind != 'f' and (o[same] != spec[same]).any():
+            raise core.Infra('C06: the numpy oracle of the size-threshold stream disagrees with the Lean spec on ' + str(case)[:300])
     lo, hi = _range(case['dtype'] if k != 'laplacian' else 'float64')
     # which cells are compared is decided by the Lean model of the C cast (`castDefined`: the truncated accumulator is
     # representable; C06_cast_in_range) - everywhere else `static_cast<T>(double)` is undefined behaviour. A weight whose
@@ -256,7 +342,7 @@ def _ramp(case):
 
 def evaluate(cases):
     res = []
-    plain = [c for c in cases if c['kind'] != 'ramp']
+    plain = [c for c in cases if c['kind'] not in ('ramp', 'big')]
     prepared = {}
     lines = []
     for c in plain:
@@ -265,6 +351,14 @@ def evaluate(cases):
     drvs = dict(zip([id(c) for c in plain], core.drive(lines)))
     lns = dict(zip([id(c) for c in plain], lines))
     for case in cases:
+        if case['kind'] == 'big':
+            f, taps = _eval_big(case)
+            for x in f:
+                x['case'] = case
+            res.append(dict(findings=f, nontrivial=True, sig=json.dumps(case, sort_keys=True),
+                            tags=dict(kind=case['fn'], mode=case['mode'], ndim=len(case['shape']), dtype=case['dtype'],
+                                      size='threshold', kernel='taps>=256' if taps >= 256 else 'taps<256')))
+            continue
         if case['kind'] == 'ramp':
             f = _ramp(case)
             res.append(dict(findings=f, nontrivial=True, sig=json.dumps(case, sort_keys=True),
@@ -395,6 +489,19 @@ def cases(rng, tier):
             out.append(dict(kind='ramp', dtype='float64', sigma=sigma, ndim=ndim, axis=axis, n=int(8 * sigma) + 12,
                             mode=rng.choice(MODES if via == '1d' or ndim == 1 else MODES[:4]), via=via, neg=rng.random() < 0.5,
                             slope=rng.choice([1, 1, 2, -3]), layout=rng.choice(['C', 'F', 'strided'])))
+    # size-threshold stream: rows of 2^16 +- 1 and more pixels, kernels crossing 256 taps (a row index, tap counter or
+    # offset narrowed to 8/16 bits passes every small case); judged with the exact numpy oracle `_oracle_conv1d`
+    nbig = dict(quick=4, thorough=24, search=4)[tier]
+    for i in range(nbig):
+        n = rng.choice([65535, 65536, 65537, 65537, 70000 + rng.randrange(999)])
+        taps = rng.choice([255, 256, 257, 257, 300])
+        fn = ['convolve1d', 'convolve1d', 'convolve', 'gaussian1d'][i % 4]
+        shape, axis = rng.choice([([n], 0), ([2, n], 1), ([n, 2], 0), ([1, n, 1], 1)])
+        c = dict(kind='big', fn=fn, shape=shape, axis=axis, taps=taps, dtype=rng.choice(['float64', 'int32', 'uint16', 'uint8', 'float32']),
+                 mode=rng.choice(MODES), seed=rng.randrange(10 ** 6))
+        if fn == 'gaussian1d':
+            c.update(dtype='float64', sigma=rng.choice([63.875, 64.0, 64.125]), order=rng.choice([0, 0, 1]))   # lw = 256 / 257: 513 / 515 taps
+        out.append(c)
     for _ in range(nrand):
         r = rng.random()
         dtype = rng.choice(DTYPES)
@@ -488,7 +595,7 @@ def cases(rng, tier):
 
 def shrink(case):
     k = case['kind']
-    if k == 'ramp':
+    if k in ('ramp', 'big'):
         return
     shape, data = case['shape'], case['data']
     A = np.array(data, dtype=np.float64).reshape(shape)
